@@ -37,6 +37,8 @@ def run(tier, seed):
     chk.add_rule("C16.S.setiter", ok, sites, failing)
     if any(s.startswith("einx/_src/util/solver.py:") and s.endswith(":solve:list()") for s in sites):
         chk.known_finding("F-solver-order-hang", "util/solver.py:solve hands sympy list(set(equations)): completion time of unsolvable systems depends on PYTHONHASHSEED")
+    ok, sites, failing = frame.rule_join_order()
+    chk.add_rule("C16.S.join_order", ok, sites, failing)
     ok, sites, failing = frame.rule_no_name_order()
     chk.add_rule("C16.S.no_name_order", ok, sites, failing)
     lits, bad = literals_prefix_free()
